@@ -37,7 +37,7 @@ def main():
         cases.append({"op": "hash_eq", "l": a, "r": b})
         groups.append((start, a, b))
     # ---- coherence on offset scales (zero and equal readings included) and after an equivalence has been declared twice
-    def table(payload, pairs, tag, value_of=None):
+    def table(payload, pairs, tag, value_of=None, exact=False):
         ops = ("eq", "ne", "lt", "le", "gt", "ge")
         cs = []
         for a, b in pairs:
@@ -56,7 +56,7 @@ def main():
             if value_of:
                 va, vb = value_of(a), value_of(b)
                 if va != vb and abs(va - vb) < Fraction(1, 10**6) * max(abs(va), abs(vb), 1): continue
-                if va == vb and a["u"] != b["u"]: continue        # exact ties reached through floats
+                if va == vb and a["u"] != b["u"] and not exact: continue        # exact ties reached through floats (exact: every ratio is a power of two)
                 if g("lt") != (va < vb) or g("eq") != (va == vb):
                     c.violation(f"physical-order:{tag}", f"order disagrees with the physical values {float(va)} vs {float(vb)}", repl)
             if g("eq") != g("eq'"): c.violation(f"eq-symmetric:{tag}", "a == b differs from b == a", repl)
@@ -85,6 +85,21 @@ def main():
             for x, y in ((2, 2), (3, 1), (1, 16), (31, 16), (0, 0), (5, 40)):
                 rp.append(({"m": ["int", str(x), "1"], "u": [[None, ua, 1]]}, {"m": ["float", str(y), "1"], "u": [[None, ub, 1]]}))
     table({"systems": False, "define": define, "decls": decls}, rp, "redeclared", lambda q: Fraction(int(q["m"][1]), int(q["m"][2])) * size[q["u"][0][1]])
+    # pairs the planner converts from one side only (a volume declared as a cube against a volume reached through a named unit, like
+    # hubble volume against cup among the shipped units): == and the order must not depend on which side finds the route
+    U1 = lambda n, e=1: [[None, n, e]]
+    define1 = [["vmeter", [[1, 1]]], ["vell", [[1, 1]]], ["vvat", [[1, 3]]], ["vtun", [[1, 3]]], ["vstere", [[1, 3]]]]
+    decls1 = [[U1("vell"), ["int", "2", "1"], U1("vmeter")], [U1("vvat"), ["int", "1", "1"], U1("vell", 3)],
+              [U1("vstere"), ["int", "1", "1"], U1("vmeter", 3)], [U1("vtun"), ["int", "4", "1"], U1("vstere")]]
+    size1 = {"vvat": Fraction(8), "vtun": Fraction(4), "vstere": Fraction(1)}
+    op1 = []
+    for ua in size1:
+        for ub in size1:
+            if ua == ub: continue
+            for x in (1, 2, 3, 8):
+                for y in (1, 2, 4, 16):
+                    op1.append(({"m": ["int", str(x), "1"], "u": U1(ua)}, {"m": [rng.choice(["int", "float"]), str(y), "1"], "u": U1(ub)}))
+    table({"systems": False, "define": define1, "decls": decls1}, op1, "one-sided", lambda q: Fraction(int(q["m"][1]), int(q["m"][2])) * size1[q["u"][0][1]], exact=True)
     recs = qdriver.run(cases)
     for start, a, b in groups:
         R = {}
